@@ -52,11 +52,12 @@ type Program struct {
 	byObj   map[*types.Func]*FuncInfo
 	parents map[ast.Node]ast.Node
 
-	postconds    map[*types.Func][]lenPostcond
-	postCache    map[*FuncInfo]*postInfo
-	postBusy     map[*FuncInfo]bool
-	resLenCache  map[*FuncInfo][]resLen
-	postcondBusy bool
+	postconds     map[*types.Func][]lenPostcond
+	postCache     map[*FuncInfo]*postInfo
+	postBusy      map[*FuncInfo]bool
+	resLenCache   map[*FuncInfo][]resLen
+	resRangeCache map[*FuncInfo]*resRange
+	postcondBusy  bool
 
 	ssaProg *ssa.Program
 	ssaPkgs map[string]*ssa.Package
